@@ -58,6 +58,7 @@ type Case struct {
 	Alone []bool   `json:"alone"`
 	Gen   string   `json:"gen"`
 	Conc  *Conc    `json:"conc,omitempty"`
+	Dev   *Dev     `json:"dev,omitempty"`
 }
 
 var consts = map[string]int64{}
@@ -533,6 +534,10 @@ func writeConc(path string, c *Conc) error {
 	return os.WriteFile(path, []byte(b.String()), 0o644)
 }
 
+func osWriteFile(path, content string) error {
+	return os.WriteFile(path, []byte(content), 0o644)
+}
+
 func main() {
 	seed := flag.Int64("seed", 1, "PRNG seed")
 	n := flag.Int("n", 300, "number of histories")
@@ -542,12 +547,24 @@ func main() {
 	replayIn := flag.String("replay", "", "JSON file with cases (addrs, ops, pa | conc) to run; observed results are filled in")
 	corpus := flag.String("corpus", "", "directory of corpus JSON cases to prepend")
 	conc := flag.Int("conc", 16, "callers in the concurrent new-address scenario (0 = skip)")
+	dev := flag.String("dev", "v4,v6", "device-level real-time scenarios to run (comma separated families, empty = skip)")
 	flag.Parse()
 	if err := os.MkdirAll(*out, 0o755); err != nil {
 		panic(err)
 	}
 	var cases []Case
 	var concCase *Case
+	var devs []*Dev
+	var devFamilies []string
+	devDone := make(chan struct{})
+	startDev := func() {
+		go func() { // device worlds one after the other (quiescence detection is process-wide)
+			for _, f := range devFamilies {
+				devs = append(devs, runDev(f))
+			}
+			close(devDone)
+		}()
+	}
 	if *replayIn != "" {
 		data, err := os.ReadFile(*replayIn)
 		if err != nil {
@@ -558,6 +575,15 @@ func main() {
 			panic(err)
 		}
 		for i := range in {
+			if in[i].Dev != nil {
+				devFamilies = append(devFamilies, in[i].Dev.Family)
+			}
+		}
+		startDev()
+		for i := range in {
+			if in[i].Dev != nil {
+				continue
+			}
 			if in[i].Conc != nil {
 				cc := in[i]
 				runConc(cc.Conc)
@@ -569,6 +595,12 @@ func main() {
 		}
 		*shards = 1
 	} else {
+		for _, f := range strings.Split(*dev, ",") {
+			if f = strings.TrimSpace(f); f != "" {
+				devFamilies = append(devFamilies, f)
+			}
+		}
+		startDev()
 		if *corpus != "" {
 			files, _ := filepath.Glob(filepath.Join(*corpus, "*.json"))
 			for _, f := range files {
@@ -579,7 +611,7 @@ func main() {
 				var cs []Case
 				if json.Unmarshal(data, &cs) == nil {
 					for _, c := range cs {
-						if c.Conc != nil || len(c.Addrs) == 0 {
+						if c.Conc != nil || c.Dev != nil || len(c.Addrs) == 0 {
 							continue
 						}
 						c.Gen = "corpus"
@@ -642,6 +674,17 @@ func main() {
 		meta["conc_index"] = len(cases)
 		concCase.Addrs, concCase.Ops, concCase.Obs, concCase.Nogc, concCase.Alone = []string{}, []Op{}, []int64{}, []bool{}, []bool{}
 		cases = append(cases, *concCase) // the scenario is the last case
+	}
+	<-devDone
+	if len(devs) > 0 {
+		if err := writeDev(filepath.Join(*out, "cases_C19_dev.v"), devs); err != nil {
+			panic(err)
+		}
+		meta["dev_file"] = "cases_C19_dev.v"
+		meta["dev_index"] = len(cases)
+		for _, d := range devs {
+			cases = append(cases, Case{Addrs: []string{}, Ops: []Op{}, Obs: []int64{}, Nogc: []bool{}, Alone: []bool{}, Gen: "device-level-" + d.Family, Dev: d})
+		}
 	}
 	meta["cases"] = cases
 	data, _ := json.Marshal(meta)
